@@ -281,7 +281,7 @@ func c07Wait(a *Anchors, r *core.Report, wait *ssa.Function) {
 // c07Reply: Q3
 func c07Reply(a *Anchors, r *core.Report) {
 	rule := "C07.Q3 reply-carries-request-identity"
-	r.Floor(rule, 10)
+	r.Floor(rule, 14)
 	procB := ifaceOf(a.P, "gen", "ProcessBehavior")
 	sameMsgFields := func(from, ref ssa.Value) (bool, string) {
 		bf, pf, ok1 := fieldPath(from)
